@@ -98,8 +98,9 @@ Definition trigger (now : Z) (calc : Z -> outcome pays) (bal : Z) (g : gauge) : 
 
 (* the swap-fee branch: distribute what was accumulated at the previous epoch, then fetch this
    epoch's fees.  [recv]: what TransferFundsForSwapFeeDistribution returns (the coins are credited
-   to the module account by that call).  When the transfer fails AFTER a successful distribution
-   the loop continues WITHOUT SetGauge: the sends stay, the record keeps its old DepositAmount. *)
+   to the module account by that call).  When the transfer fails after a successful distribution
+   the gauge is stored with the distribution booked (DepositAmount reduced, DistributedAmount
+   raised, TriggeredCount unchanged) and the loop continues (fix C19-F2: SetGauge before continue). *)
 Definition trigger_swap (calc : Z -> outcome pays) (recv : outcome Z) (bal : Z) (g : gauge) : outcome (gauge * Z * pays) :=
   let dist := if 0 <? g_deposit g then distribute calc (g_deposit g) bal else Ok (Some (0, bal, [])) in
   match dist with
@@ -108,7 +109,7 @@ Definition trigger_swap (calc : Z -> outcome pays) (recv : outcome Z) (bal : Z) 
   | Ok (Some (tot, bal', paid)) =>
     match recv with
     | Panic => Panic
-    | Err _ => Ok (g, bal', paid)
+    | Err _ => Ok (mkGauge (g_deposit g - tot) (g_distributed g + tot) (g_triggered g) (g_total g) (g_active g) (g_start g) (g_dur g) (g_swap g) (g_denom g), bal', paid)
     | Ok r => Ok (g_swap_paid g tot r, bal' + r, paid)
     end
   end.
@@ -209,14 +210,17 @@ Record ext := mkExt { x_kind : Z; x_denom : Z; x_avail : Z; x_active : bool; x_d
 Record xenv := mkXenv { xe_total : Z; xe_pop : list (Z * Z * Z) }.
 Definition DAY : Z := 86400.
 
-(* finalDailyRewards of one locker / vault.  Int64() panics out of range, Quo panics on zero. *)
+(* finalDailyRewards of one locker / vault (fix C19-F3: the owner's balance is multiplied into the
+   epoch rewards BEFORE dividing by the recorded total -
+   epochRewards.MulInt64(net).QuoInt64(total) / .QuoInt(total), then TruncateInt - instead of
+   rounding the share net/total to 18 decimals first).  Int64() panics out of range, QuoInt panics
+   on zero. *)
 Definition ext_final (kind avail dleft total net : Z) : outcome Z :=
   match int64_c net, (if kind =? 0 then int64_c total else Some total), int64_c avail with
   | Some n, Some t, Some a =>
       if t =? 0 then Panic else
-      let share := dquo (dec_of_int n) (dec_of_int t) in
       let er := dquo (dec_of_int a) (dec_of_int dleft) in
-      Ok (dtrunc_int (dmul share er))
+      Ok (dtrunc_int (dquo_int (dmul_int er n) t))
   | _, _, _ => Panic
   end.
 
@@ -250,14 +254,6 @@ Definition ext_tick (now : Z) (e : xenv) (bal : Z) (x : ext) : outcome (ext * Z 
             bal', paid)
     end
   else Ok (mkExt (x_kind x) (x_denom x) (x_avail x) false (x_days x) (x_count x) (x_next x) (x_minlock x), bal, []).
-
-(* known-finding class C19-F3: a program books more than it has left (the rounded shares add up
-   to more than one and the product is truncated only afterwards) *)
-Definition kf_C19_3 (now : Z) (e : xenv) (x : ext) : bool :=
-  match ext_tick now e 0 x with
-  | Ok (x', _, _) => x_avail x' <? 0
-  | _ => false
-  end.
 
 (* ---------------- lend external reward programs (kind 2): DistributeExtRewardLend ---------------- *)
 (* environment of one program: le_ok = the asset statistics of (pool, asset) were found (otherwise the
@@ -312,13 +308,13 @@ Definition kf_C19_4 (now : Z) (e : lenv) (arr : list (Z * Z)) (tot : Z) (x : ext
   | _ => false
   end.
 
-(* a sufficient condition for a program step to stay out of class C19-F3: non-negative balances
-   that add up to at most the recorded total (what the locker / vault books guarantee), and
-   4 * owners * available <= 10^18 *)
+(* well-formed population of a locker / vault program: the owners' balances are not negative and add
+   up to at most the recorded total (the locker lookup's DepositedAmount is the sum of the lockers'
+   NetBalance, the vault mapping's TokenMintedAmount the sum of the vaults' AmountOut: what the
+   locker / vault books guarantee) *)
 Definition pop_net (pop : list (Z * Z * Z)) : Z := zsum (map (fun u => snd (fst u)) pop).
-Definition ext_safe (e : xenv) (x : ext) : bool :=
-  (0 <=? x_avail x) && forallb (fun u => 0 <=? snd (fst u)) (xe_pop e) && (0 <? xe_total e) &&
-  (pop_net (xe_pop e) <=? xe_total e) && (4 * zlen (xe_pop e) * x_avail x <=? P18) && (4 * zlen (xe_pop e) <=? P18).
+Definition xenv_wf (e : xenv) : bool :=
+  forallb (fun u => 0 <=? snd (fst u)) (xe_pop e) && (pop_net (xe_pop e) <=? xe_total e).
 
 (* ---------------- the rewards module: gauges, epochs, programs, one custody account ----------- *)
 Definition bank := Z -> Z.                        (* denom -> balance of the rewards module account *)
@@ -515,40 +511,8 @@ Definition owed_active (d : Z) (gs : list gauge) (xs : list ext) : Z :=
   zsum (map (fun g => if (g_denom g =? d) && g_active g then g_rem g else 0) gs) +
   zsum (map (fun x => if (x_denom x =? d) && x_active x then x_avail x else 0) xs).
 
-(* known-finding class C19-F2: a swap-fee gauge whose accumulated fees were just distributed while
-   the transfer of the new fees fails (several pools on the pair and an oracle price missing): the
-   record is not saved *)
-Definition kf_C19_2 (calc : Z -> outcome pays) (recv : outcome Z) (g : gauge) : bool :=
-  g_swap g && (0 <? g_deposit g) && negb (is_ok recv) &&
-  match distribute calc (g_deposit g) (g_deposit g) with Ok (Some (tot, _, _)) => 0 <? tot | _ => false end.
-
-(* does a BeginBlocker meet a known-finding class: evaluated along the run, on each gauge / program
-   in the state in which it is processed, only for the epochs that are due *)
-Fixpoint kf2_pass (dur : Z) (gs : list gauge) (fe : list farm_env) (rv : list (outcome Z)) : bool :=
-  match gs with
-  | [] => false
-  | g :: rest => ((g_dur g =? dur) && kf_C19_2 (farm_calc (hd_farm fe)) (hd_recv rv) g) || kf2_pass dur rest (tl fe) (tl rv)
-  end.
-Fixpoint kf2_epochs (now : Z) (es : list epoch) (gs : list gauge) (fe : list farm_env) (rv : list (outcome Z)) (b : bank) : bool :=
-  match es with
-  | [] => false
-  | e :: rest =>
-      match snd (epoch_tick now e) with
-      | TTrigger => kf2_pass (e_dur e) gs fe rv ||
-                    match run_gauges now (e_dur e) gs fe rv b with
-                    | Ok (gs1, b1, _) => kf2_epochs now rest gs1 fe rv b1
-                    | _ => false
-                    end
-      | _ => kf2_epochs now rest gs fe rv b
-      end
-  end.
-Fixpoint kf3_pass (kind now : Z) (xs : list ext) (xe : list xenv) : bool :=
-  match xs with
-  | [] => false
-  | x :: rest => ((x_kind x =? kind) && kf_C19_3 now (hd_xenv xe) x) || kf3_pass kind now rest (tl xe)
-  end.
-Definition kf2_begin (now : Z) (e : benv) (s : rstate) : bool :=
-  kf2_epochs now (r_epochs s) (r_gauges s) (be_farm e) (be_recv e) (r_bal s).
+(* does a BeginBlocker meet the known-finding class C19-F4: evaluated along the run, on each lend
+   program in the state in which it is processed *)
 Fixpoint kf4_pass (now : Z) (xs : list ext) (le : list lenv) (arr : list (Z * Z)) (tot : Z) : bool :=
   match xs with
   | [] => false
@@ -562,16 +526,7 @@ Fixpoint kf4_pass (now : Z) (xs : list ext) (le : list lenv) (arr : list (Z * Z)
       else kf4_pass now rest (tl le) arr tot
   end.
 (* a class met inside a step that fails as a whole has no effect (the step is rolled back): the
-   class predicates of a BeginBlocker count only the steps that keep their writes *)
-Definition kf3_begin (now : Z) (e : benv) (s : rstate) : bool :=
-  match run_epochs now (r_epochs s) (r_gauges s) (be_farm e) (be_recv e) (r_bal s) with
-  | Ok (_, _, b1, _) =>
-      let r2 := run_exts 0 now (r_exts s) (be_ext e) b1 in
-      (is_ok r2 && kf3_pass 0 now (r_exts s) (be_ext e)) ||
-      let '(xs1, b2, _) := sub_step r2 (r_exts s) b1 in
-      (is_ok (run_exts 1 now xs1 (be_ext e) b2) && kf3_pass 1 now xs1 (be_ext e))
-  | _ => false
-  end.
+   class predicate of a BeginBlocker counts the lend step only when it keeps its writes *)
 Definition kf4_begin (now : Z) (e : benv) (s : rstate) : bool :=
   match run_epochs now (r_epochs s) (r_gauges s) (be_farm e) (be_recv e) (r_bal s) with
   | Ok (_, _, b1, _) =>
@@ -582,7 +537,7 @@ Definition kf4_begin (now : Z) (e : benv) (s : rstate) : bool :=
   end.
 Definition kf_step (s : rstate) (o : gop) : bool :=
   match o with
-  | Begin now e => kf2_begin now e s || kf3_begin now e s || kf4_begin now e s
+  | Begin now e => kf4_begin now e s
   | _ => false
   end.
 (* no step of the history meets a class *)
@@ -593,11 +548,19 @@ Fixpoint run_clean (s : rstate) (ops : list gop) : bool :=
   end.
 
 (* well-formed environment values: a coin handed over by the fee transfer is not negative
-   (sdk.Coin cannot hold a negative amount) *)
+   (sdk.Coin cannot hold a negative amount); the populations of the locker / vault programs are
+   consistent with their recorded totals (xenv_wf) *)
 Definition recv_wf (r : outcome Z) : bool := match r with Ok v => 0 <=? v | _ => true end.
 Definition op_wf (o : gop) : bool :=
   match o with
-  | Begin _ e => forallb recv_wf (be_recv e)
+  | Begin _ e => forallb recv_wf (be_recv e) && forallb xenv_wf (be_ext e)
+  | _ => true
+  end.
+
+(* histories without lend programs (the only program kind with a known-finding class left) *)
+Definition no_lend_op (o : gop) : bool :=
+  match o with
+  | ExtCreate kind _ _ _ _ _ _ _ => negb (kind =? 2)
   | _ => true
   end.
 
